@@ -98,7 +98,7 @@ def build(mod):
     NEW = Obj(mod.NameGenerator, {})
     own_iter = ['iter_of(self)', 'self._NameGenerator__iterself is the_iterator()']
     cs.append(Contract(MOD + ':NameGenerator.__init__', params={'self': NEW, 'skip': SetStr(), 'charset': Str},
-                       ensures=['self.skip == skip', 'self.skip is not skip', 'self.charset == charset'] + own_iter, env=ienv, notes='skip: a set'))
+                       ensures=['self.skip == skip', 'self.charset == charset'] + own_iter, env=ienv, notes='skip: a set'))
     cs.append(Contract(MOD + ':NameGenerator.__init__', params={'self': NEW, 'skip': Const(('do', 'if', 'in'))},
                        ensures=["self.skip == {'do', 'if', 'in'}", 'self.charset == ID_CHARS'] + own_iter, env=ienv, notes='skip: a tuple of keywords, default alphabet'))
     cs.append(Contract(MOD + ':NameGenerator.__init__', params={'self': NEW},
